@@ -11,6 +11,8 @@ Labels follow the wording of property C04:
 
 BUILTIN_MODULES = ("builtins", "__builtin__")
 EXEC_BUILTINS = ("eval", "exec", "compile", "open")
+# other spellings of the very same objects (io.open is builtins.open)
+EXEC_ALIASES = (("io", "open"), ("_io", "open"))
 OTHER_BUILTINS = ("getattr", "__import__", "map", "print", "len", "dict", "set", "apply", "globals")
 
 DANGEROUS_MODULES = (
@@ -27,7 +29,7 @@ PY2_MODULES = ("copy_reg", "Queue", "cStringIO", "UserDict", "commands")
 NONSTD_MODULES = ("numpy", "torch", "torch._utils", "foo.bar", "pandas", "verif_canary",
                   "numpy.core.multiarray", "torch.storage", "sklearn.svm") + PY2_MODULES  # fmt: skip
 BENIGN_MODULES = ("collections", "datetime", "fractions", "decimal", "copyreg", "operator",
-                  "functools", "pickle", "shlex", "queue", "io")  # fmt: skip
+                  "functools", "pickle", "shlex", "queue", "io", "_io")  # fmt: skip
 HELPER_MODULES = ("verif_objs", "verif_sink")  # the harness's own harmless, non-stdlib modules
 
 # attribute names that individual rules special-case
